@@ -80,6 +80,23 @@ int main() {
                 vf::out_mat(std::string("res") + (nm + 1), call_mean(c.mat(nm), w, via_equal));
             }
         }
+        // pure functions: concurrent callers on other data of the same shapes must get the sequential results
+        {
+            vf::Entry e("directional_statistics from several threads");
+            std::vector<std::function<MatrixXd()>> jobs;
+            for (int t = 0; t < 3; t++) {
+                const MatrixXd a = vf::rotate_cols(c.mat("a"), t);
+                if (c.kind == "mean") {
+                    const VectorXd w = c.mat("w").col(0);
+                    jobs.push_back([a, w]() { MatrixXd m = directional_statistics::directional_mean(a, w); return m; });
+                } else {
+                    const VectorXd b = c.mat("b").col(0) * (1.0 + t);
+                    const bool add = c.kind == "add";
+                    jobs.push_back([a, b, add]() { MatrixXd m = add ? directional_statistics::directional_add(a, b) : directional_statistics::directional_sub(a, b); return m; });
+                }
+            }
+            vf::out_int("concurrent_equal", vf::concurrent_same(jobs, 30) ? 1 : 0);
+        }
         vf::out_int("via_equal", via_equal ? 1 : 0);
         vf::out_end();
     }
